@@ -170,7 +170,7 @@ def main():
                         rel, hf = inj[0], inj[1]
                         tag = (rel, hf)
                         if tag not in injected:
-                            sc.inject(rel, hf, *(inj[2:3]))
+                            sc.inject(rel, hf, *(inj[2:4]))
                             injected.add(tag)
                         files_scanned.add(hf)
                     for rel, pat, rep, mn in unit.get('rewrite', []):
